@@ -23,6 +23,9 @@ import (
 	"verif/harness/rt"
 )
 
+// VH_CHAN_CTOR=defaultchan: build blocking-mode ChanOps with fun.DefaultChan(ch) alone (probe, never a registered run)
+var ctorDefaultChan = os.Getenv("VH_CHAN_CTOR") == "defaultchan"
+
 func main() {
 	if len(os.Args) < 2 {
 		fmt.Fprintln(os.Stderr, "usage: vh-chan sched|record|dseq|drecord")
@@ -73,18 +76,18 @@ func errName(err error) string {
 	switch {
 	case err == nil:
 		return "ok"
+	case errors.Is(err, pubsub.ErrQueueFull):
+		return "full"
+	case errors.Is(err, pubsub.ErrQueueNoCredit):
+		return "nocredit"
+	case errors.Is(err, pubsub.ErrQueueClosed): // wraps io.EOF: must be tested first
+		return "closed"
 	case errors.Is(err, io.EOF):
 		return "eof"
 	case errors.Is(err, fun.ErrNonBlockingChannelOperationSkipped):
 		return "skip"
 	case errors.Is(err, context.Canceled), errors.Is(err, context.DeadlineExceeded):
 		return "ctx"
-	case errors.Is(err, pubsub.ErrQueueFull):
-		return "full"
-	case errors.Is(err, pubsub.ErrQueueNoCredit):
-		return "nocredit"
-	case errors.Is(err, pubsub.ErrQueueClosed):
-		return "closed"
 	}
 	return "err:" + err.Error()
 }
@@ -106,6 +109,10 @@ func boolName(b bool) string {
 
 // chanOf builds the ChanOp under test in one of the equivalent ways the API offers.
 func chanOf(ch chan string, nb bool, variant int) fun.ChanOp[string] {
+	if ctorDefaultChan && !nb && ch != nil {
+		// documented-vs-actual probe: DefaultChan(ch) used as it is returned ("blocking by default")
+		return fun.DefaultChan(ch)
+	}
 	switch variant % 3 {
 	case 0:
 		if nb {
